@@ -79,7 +79,7 @@ Proof.
 Qed.
 
 (** encoding then decoding one character (the converse of [Utf8.utf8_step_encode]) *)
-Ltac Zify.zify_post_hook ::= Z.to_euclidean_division_equations.
+#[local] Ltac Zify.zify_post_hook ::= Z.to_euclidean_division_equations.
 Lemma utf8_step_enc c r : scalar c = true ->
   utf8_step (utf8_encode c ++ r) = Some (c, length (utf8_encode c)).
 Proof.
